@@ -1,6 +1,7 @@
 """Potential-panic site enumeration over the bodies reachable from given entry points, with
 sound discharge rules and an audited allowance table (rules/allow_panics.json)."""
 import json
+import re
 import os
 
 from . import idioms as I
@@ -195,8 +196,10 @@ def sites_of(F, fn):
                 a, b = pr.operand(m["a"]), pr.operand(m["b"])
                 cl = t["cond"].get("move") or t["cond"].get("copy") or {"l": 0}
                 ty = fn.local_ty(cl["l"]).strip("()").split(",")[0]
+                aty = m["a"]["const"].get("ty") if "const" in m["a"] else \
+                    (fn.local_ty((m["a"].get("move") or m["a"].get("copy"))["l"]) if not (m["a"].get("move") or m["a"].get("copy"))["proj"] else None)
                 out.append(Site(fn, bi, "assert-overflow", f"{m['op']}:{ty}|{coarse2(a)}|{coarse2(b)}", blk["line"],
-                                {"a": a, "b": b, "op": m["op"]}))
+                                {"a": a, "b": b, "op": m["op"], "a_ty": aty}))
             else:
                 out.append(Site(fn, bi, "assert-" + kind, "", blk["line"]))
         elif t["k"] == "call":
@@ -269,6 +272,155 @@ def enum_code_max(F, term):
     return None
 
 
+_UBITS = {"u8": 8, "u16": 16, "u32": 32, "u64": 64, "u128": 128, "usize": 64,
+          "i8": 7, "i16": 15, "i32": 31, "i64": 63, "i128": 127, "isize": 63}
+
+
+def interval(F, t, depth=0):
+    """(lo, hi) of an integer term built from constants, enum codes (0..max code), lossless widenings and + - * <<;
+    None when any leaf is unbounded."""
+    if depth > 12:
+        return None
+    c = P.const_int(t)
+    if c is not None:
+        return (c, c)
+    m = enum_code_max(F, t)
+    if m is not None:
+        return (0, m)
+    s = P.unwiden(t)
+    if s != t:
+        return interval(F, s, depth + 1)
+    s = P.strip(t, calls=False)
+    if s != t:
+        return interval(F, s, depth + 1)
+    if t[0] == "bin" and t[1] in ("Add", "Sub", "Mul", "AddWithOverflow", "SubWithOverflow", "MulWithOverflow"):
+        a, b = interval(F, t[2], depth + 1), interval(F, t[3], depth + 1)
+        if a is None or b is None:
+            return None
+        op = t[1][:3]
+        if op == "Add":
+            return (a[0] + b[0], a[1] + b[1])
+        if op == "Sub":
+            return (a[0] - b[1], a[1] - b[0])
+        if a[0] >= 0 and b[0] >= 0:
+            return (a[0] * b[0], a[1] * b[1])
+    return None
+
+
+_SHORTENING = {"iter", "into_iter", "iter_mut", "rev", "copied", "cloned", "enumerate", "skip", "take", "step_by", "filter",
+               "filter_map", "map", "inspect", "peekable", "take_while", "skip_while", "zip", "by_ref", "fuse"}
+
+
+def _trip_bound(F, fn, loop):
+    """upper bound of the number of iterations of a `for` loop over a fixed-length array (through adaptors that cannot
+    lengthen the sequence), else None"""
+    src, chain = loop.chain()
+    if any(c.rsplit("::", 1)[-1] not in _SHORTENING for c in chain):
+        return None
+    s = P.strip(src, calls=False)
+    if s[0] == "param":
+        m = re.match(r"^&?(?:mut )?\[.*; (\d+)\]$", fn.local_ty(s[1]))
+        return int(m.group(1)) if m else None
+    if s[0] == "named":
+        v = F.const_value(s[1])
+        if v and "array" in v:
+            return len(v["array"])
+    return None
+
+
+def _bounded_counter(F, fn, pr, site):
+    """`S += c` where S (a scalar local or the elements of a local array) starts at a constant, is only ever changed by
+    `+= const` / `-= ..` statements, never escapes by `&mut`, and every `+=` sits in `for` loops over fixed-length arrays:
+    S <= init + sum(c_j * trips_j).  Sound without knowing which element is incremented (the bound is on the total)."""
+    from . import loops as L
+    if site.info.get("op") != "Add":
+        return None
+    blk = fn.blocks[site.block]
+    t = blk["term"]
+    cl = t["cond"].get("move") or t["cond"].get("copy")
+    if cl is None:
+        return None
+    src = None
+    for s in blk["stmts"]:
+        if s["k"] == "assign" and s["place"]["l"] == cl["l"] and not s["place"]["proj"] and s["rv"].get("bin") == "AddWithOverflow":
+            a = s["rv"]["a"]
+            src = a.get("copy") or a.get("move")
+    if src is None or any(e == "deref" for e in src["proj"]):
+        return None
+    S = src["l"]
+    if S == 0 or S <= fn.arg_count:
+        return None
+    m = re.match(r"(\w+):(\w+)", site.detail)
+    bits = _UBITS.get(m.group(2)) if m else None
+    if not bits:
+        return None
+    # no `&mut S..` anywhere, no call writes into S
+    for bi, b in enumerate(fn.blocks):
+        if b["cleanup"]:
+            continue
+        for s in b["stmts"]:
+            if s["k"] == "assign" and "ref" in s["rv"] and s["rv"].get("mut") and s["rv"]["ref"]["l"] == S:
+                return None
+            if s["k"] == "assign" and "raw" in s["rv"] and s["rv"]["raw"].get("l") == S:
+                return None
+        tt = b["term"]
+        if tt["k"] == "call" and tt["dest"]["l"] == S:
+            return None
+    fl = L.for_loops(fn, pr)
+    by_header = {l.header: l for l in fl}
+    natural = fn.cfg.loops()
+    total = 0
+    inits = 0
+
+    def single_def(l):
+        ds = pr.defs.get(l, [])
+        return ds[0] if len(ds) == 1 and ds[0][2] == "rv" else None
+    writes = [(bi, si, rv) for (bi, si, kind, rv) in pr.defs.get(S, []) if kind == "rv"] + \
+             [(bi, si, rv) for (bi, si, pl, rv) in pr.stores.get(S, [])]
+    if len(writes) != len(pr.defs.get(S, [])) + len(pr.stores.get(S, [])):
+        return None
+    for (bi, si, rv) in writes:
+        if bi not in fn.cfg.reachable:
+            continue
+        if "use" in rv and "const" in rv["use"] and isinstance(rv["use"]["const"].get("int"), int):
+            inits = max(inits, rv["use"]["const"]["int"])
+            continue
+        if "repeat" in rv and "const" in rv["repeat"] and isinstance(rv["repeat"]["const"].get("int"), int):
+            inits = max(inits, rv["repeat"]["const"]["int"])
+            continue
+        u = rv.get("use")
+        pl = (u.get("move") or u.get("copy")) if u else None
+        if not pl or len(pl["proj"]) != 1 or not isinstance(pl["proj"][0], dict) or pl["proj"][0].get("f") != 0:
+            return None
+        d = single_def(pl["l"])
+        if d is None:
+            return None
+        brv = d[3]
+        if brv.get("bin") == "SubWithOverflow":
+            a = brv["a"].get("copy") or brv["a"].get("move")
+            if a and a["l"] == S:
+                continue
+            return None
+        if brv.get("bin") != "AddWithOverflow":
+            return None
+        a = brv["a"].get("copy") or brv["a"].get("move")
+        c = brv["b"].get("const", {}).get("int") if "const" in brv["b"] else None
+        if not a or a["l"] != S or not isinstance(c, int) or c < 0:
+            return None
+        trips = 1
+        for h, body in natural.items():
+            if bi in body:
+                lp = by_header.get(h)
+                n = _trip_bound(F, fn, lp) if lp is not None else None
+                if n is None:
+                    return None
+                trips *= n
+        total += c * trips
+    if inits + total <= (1 << bits) - 1:
+        return "R-bounded-counter"
+    return None
+
+
 def discharge(F, cg, site, pr, ctxinfo):
     fn = site.fn
     if site.kind == "assert-bounds":
@@ -295,6 +447,32 @@ def discharge(F, cg, site, pr, ctxinfo):
                     m = enum_code_max(F, xs)
                     if m is not None and m + c <= 255:
                         return "R-enum-code-arith"
+        # interval arithmetic over enum codes and constants: `12 - code(rank)`, `1 << (12 - code(rank))`
+        ia, ib = interval(F, site.info["a"]), interval(F, site.info["b"])
+        m = re.match(r"(\w+):(\w+)", site.detail)
+        bits = _UBITS.get(m.group(2)) if m else None
+        if ia is not None and ib is not None and bits:
+            op = site.info.get("op")
+            signed = m.group(2).startswith("i")
+            lo_min = -(1 << bits) if signed else 0
+            hi_max = (1 << bits) - 1
+            res = None
+            if op == "Add":
+                res = (ia[0] + ib[0], ia[1] + ib[1])
+            elif op == "Sub":
+                res = (ia[0] - ib[1], ia[1] - ib[0])
+            elif op == "Mul" and ia[0] >= 0 and ib[0] >= 0:
+                res = (ia[0] * ib[0], ia[1] * ib[1])
+            if res is not None and lo_min <= res[0] and res[1] <= hi_max:
+                return "R-interval"
+        if ib is not None and site.info.get("op") in ("Shl", "Shr") and site.info.get("a_ty") in _UBITS:
+            aty = site.info["a_ty"]
+            width = _UBITS[aty] + 1 if aty.startswith("i") else _UBITS[aty]
+            if 0 <= ib[0] and ib[1] < width:
+                return "R-interval"
+        r = _bounded_counter(F, fn, pr, site)
+        if r:
+            return r
     if site.kind == "unwrap":
         arg = site.info.get("arg")
         if arg is not None:
@@ -459,7 +637,8 @@ def audit(ctx, F, cg, entries, prop, configs=("lib",), extra_discharge=(), floor
                           fn=s.fn.path, file=s.fn.file, line=s.line, construct=f"{s.kind}: {s.detail}")
         ctx.extra.setdefault("panic_audit", {})[config] = {
             "reachable_bodies": len(rch), "discharged": counts["discharged"], "audited": counts["allowed"],
-            "unaudited_keys": len(unall)}
+            "unaudited_keys": len(unall),
+            "unused_allowance": sorted(f"{k[0]}|{k[1]}|{k[2]}={b[0]}" for k, b in budget.items() if b[0] > 0)}
     if total < floor_sites:
         raise Broken(f"{rule}: only {total} potential panic sites enumerated, floor is {floor_sites}")
     return total
